@@ -405,8 +405,17 @@ pub(crate) mod b {
                         if flag {
                             want.push("start_marked_circle");
                         }
-                        if node.tag() != Some(&"line") || num(&node, "x1") != Some(x0) || num(&node, "y2") != Some(y1) || classes(&node) != want_classes(&want) {
+                        if node.tag() != Some(&"line") || num(&node, "x1") != Some(x0) || num(&node, "y1") != Some(y0) || num(&node, "x2") != Some(x1)
+                            || num(&node, "y2") != Some(y1) || classes(&node) != want_classes(&want) {
                             fail("marker line");
+                        }
+                        // a zero-length marker line (a bullet at the start of a run) is rendered where it is, like any other
+                        for (sm, em) in [(Some(Marker::Circle), None), (None, Some(Marker::Circle)), (Some(Marker::BigOpenCircle), Some(Marker::Arrow))] {
+                            let z = MarkerLine::new(Point::new(x0, y0), Point::new(x0, y0), flag, sm, em);
+                            let node: Node<()> = z.into();
+                            if node.tag() != Some(&"line") || num(&node, "x1") != Some(x0) || num(&node, "y1") != Some(y0) || num(&node, "x2") != Some(x0) || num(&node, "y2") != Some(y0) {
+                                fail("zero-length marker line");
+                            }
                         }
                         // circle
                         let c = Circle::new(Point::new(x0, y0), r, flag);
